@@ -100,6 +100,7 @@ type Sched struct {
 	inInit   int
 	preemptions int
 	maxGs    int
+	dpor     *dporState
 }
 
 func newSched(r *Run) *Sched {
@@ -205,6 +206,7 @@ func (s *Sched) spawn(fr *frame, instr *ssa.Go, fn value, args []value) {
 	}
 	name := fmt.Sprintf("g%d(%s)", len(s.gs), fr.i.prog.Fset.Position(instr.Pos()))
 	g := s.newGoroutine(name)
+	s.dporSpawn(fr.g, g)
 	s.seq++
 	g.pending = &pendingOp{kind: opStart, g: g, seq: s.seq}
 	s.hostWG.Add(1)
@@ -431,10 +433,96 @@ func (s *Sched) asleep(g *goroutine) bool {
 	return false
 }
 
+// pickDPOR: scheduling in DPOR mode. The first awake enabled goroutine is taken by default; alternatives
+// are added after the run from the races it exhibited (dpor.go). A replayed decision names the goroutine.
+func (s *Sched) pickDPOR() *goroutine {
+	r := s.r
+	en := s.enabled()
+	if s.armedTimers() > 0 {
+		panic(unsupported{"dpor mode does not handle environment timers; use sleep sets or a preemption bound for this entry"})
+	}
+	if len(en) == 0 {
+		for _, g := range s.gs {
+			if !g.done && g.pending != nil && g.pending.kind == opIdle {
+				s.sleep = nil
+				s.dporRecord(g, []*goroutine{g}, len(r.trace))
+				r.record(Decision{K: 's', C: g.id, N: 1, G: true})
+				return g
+			}
+		}
+		s.deadlock()
+	}
+	var cand []*goroutine
+	for _, g := range en {
+		if r.concrete != nil || !s.asleep(g) {
+			cand = append(cand, g)
+		}
+	}
+	if len(cand) == 0 {
+		s.pruned = true
+		panic(runAbort{"pruned"})
+	}
+	var chosen *goroutine
+	var slept []int
+	if r.replaying() {
+		d := r.prefix[r.pos]
+		if d.K != 's' || !d.G {
+			panic(fmt.Sprintf("decision vector mismatch: want a DPOR schedule decision, have %v at %d", d, r.pos))
+		}
+		for _, g := range cand {
+			if g.id == d.C {
+				chosen = g
+			}
+		}
+		if chosen == nil {
+			if r.concrete != nil {
+				panic(fmt.Sprintf("decision vector mismatch: goroutine %d is not enabled at %d", d.C, r.pos))
+			}
+			// the goroutine is asleep or not enabled here: nothing new below this alternative
+			s.pruned = true
+			panic(runAbort{"pruned"})
+		}
+		slept = d.S
+		pos := len(r.trace)
+		r.record(d)
+		s.dporRecord(chosen, cand, pos)
+	} else {
+		chosen = cand[0]
+		pos := len(r.trace)
+		r.record(Decision{K: 's', C: chosen.id, N: len(cand), G: true})
+		s.dporRecord(chosen, cand, pos)
+	}
+	var ns []sleepEntry
+	for _, e := range s.sleep {
+		if e.g != chosen && !e.g.done && e.g.pending == e.op && s.independent(e.op, chosen.pending) {
+			ns = append(ns, e)
+		}
+	}
+	if r.concrete == nil {
+		for _, id := range slept {
+			if id < 0 || id >= len(s.gs) {
+				continue
+			}
+			g := s.gs[id]
+			if g == chosen || g.done || g.pending == nil {
+				continue
+			}
+			if s.independent(g.pending, chosen.pending) {
+				ns = append(ns, sleepEntry{g, g.pending})
+			}
+		}
+	}
+	s.sleep = ns
+	return chosen
+}
+
 // pick selects the next goroutine to move (may fire timers); reports deadlock by ending the run.
 // Sleep sets (Godefroid) prune interleavings that only commute independent operations: after the
 // i-th candidate is chosen, candidates 0..i-1 sleep until a dependent operation is executed.
 func (s *Sched) pick() *goroutine {
+	if s.dporOn() {
+		return s.pickDPOR()
+	}
 	for {
 		en := s.enabled()
 		nt := s.armedTimers()
@@ -557,6 +645,7 @@ func (s *Sched) yield(g *goroutine, op *pendingOp) {
 	s.seq++
 	op.seq = s.seq
 	g.pending = op
+	s.dporPublish(g, op)
 	s.wakePeers(op)
 	next := s.pick()
 	if next != g {
